@@ -30,23 +30,3 @@ pub fn br_f(z: &mut ZUC) -> (u32, [u32; 4]) {
     let w = z.f();
     (w, z.x)
 }
-
-pub fn add31(a: u32, b: u32) -> u32 {
-    crate::add31(a, b)
-}
-
-pub fn rot31(a: u32, k: u32) -> u32 {
-    crate::rot31(a, k)
-}
-
-pub fn l1(x: u32) -> u32 {
-    crate::l1(x)
-}
-
-pub fn l2(x: u32) -> u32 {
-    crate::l2(x)
-}
-
-pub fn sbox(x: u32) -> u32 {
-    crate::sbox(x)
-}
